@@ -207,6 +207,21 @@ pub fn run(args: &Args) -> i32 {
         check_chunk(&b, loc, true);
     });
 
+    // slices far longer than the declared payload (a length check done in 16-bit arithmetic wraps at 65536)
+    let over_lens = [1usize, 2, 3, 4, 5, 100, 65532, 65533, 65534, 65535];
+    let over_extra = [65528usize, 65532, 65536, 65540, 131072, 196608];
+    rep.run("oversize-slices", (over_lens.len() * over_extra.len() * 2) as u64, 60, true, "payload length {1..5, 100, 65532..65535} x {65528, 65532, 65536, 65540, 131072, 196608} extra zero bytes between payload and payload CRC x {CRC over payload + zeros, CRC over the payload only}", |idx, loc| {
+        let d = unrank(idx, &[over_lens.len() as u64, over_extra.len() as u64, 2]);
+        let len = over_lens[d[0] as usize];
+        let mut b = mk_chunk(2, 1, 0, 0, payload_bytes(len, 3));
+        let crc_pos = b.len() - 4;
+        b.splice(crc_pos..crc_pos, std::iter::repeat(0u8).take(over_extra[d[1] as usize]));
+        if d[2] == 0 {
+            chunk_fix_crcs(&mut b);
+        }
+        check_chunk(&b, loc, true);
+    });
+
     // header fields
     rep.run("chip-flags-product",256 * 256 * 2, 30, true, "chip id 0..=255 x flags 0..=255 x {CRC re-derived, CRC stale}", |idx, loc| {
         let d = unrank(idx, &[256, 256, 2]);
